@@ -296,9 +296,9 @@ func init() {
 					retries[t] = scriptRetries[sc[t]]
 				}
 				serial, maxpar, mname := modeOf(mode)
-				spec := &Spec{N: n, Hist: canonHist(r, n, edges, retries), Plan: plan, Serial: serial, MaxPar: maxpar}
+				spec := &Spec{N: n, Hist: canonHist(r, n, edges, retries), Plan: plan, Serial: serial, MaxPar: maxpar, Buffer: r.chance(1, 3)}
 				res := newRes(map[string]interface{}{"spec": spec})
-				res.Cells = []string{fmt.Sprintf("small|n=%d|%s", n, mname)}
+				res.Cells = []string{fmt.Sprintf("small|n=%d|%s|buffer=%v", n, mname, spec.Buffer)}
 				if v := runAll(spec, 400, res, allProps); v != nil {
 					return v
 				}
@@ -315,7 +315,7 @@ func init() {
 			if maxpar == 2 {
 				maxpar = 2 + r.intn(3)
 			}
-			spec := &Spec{N: n, Hist: canonHist(r, n, edges, retries), Plan: plan, Serial: serial, MaxPar: maxpar, PSeed: r.u64()}
+			spec := &Spec{N: n, Hist: canonHist(r, n, edges, retries), Plan: plan, Serial: serial, MaxPar: maxpar, PSeed: r.u64(), Buffer: r.chance(1, 3)}
 			switch r.intn(4) {
 			case 0, 1:
 				spec.Policy = "rand"
@@ -380,7 +380,7 @@ func init() {
 			}
 			plan, retries := randomPlan(r, n, 45)
 			serial, maxpar, mname := modeOf(idx / 5)
-			spec := &Spec{N: n, Hist: canonHist(r, n, edges, retries), Plan: plan, Serial: serial, MaxPar: maxpar, PSeed: r.u64()}
+			spec := &Spec{N: n, Hist: canonHist(r, n, edges, retries), Plan: plan, Serial: serial, MaxPar: maxpar, PSeed: r.u64(), Buffer: r.chance(1, 4)}
 			switch (idx / 20) % 6 {
 			case 0, 1:
 			case 2:
@@ -461,6 +461,14 @@ func init() {
 				spec.HoldUS = 100
 				spec.Buffer = r.chance(1, 3)
 				cell += "|" + spec.Policy
+				if spec.Policy != "eager" && r.chance(1, 3) {
+					// cancellation while the slots are held and further tasks are queued for one
+					spec.Cancel = Cancel{Kind: "after-release", K: 1 + r.intn(2)}
+					if r.chance(1, 3) {
+						spec.Cancel = Cancel{Kind: "inside-task", K: r.intn(n)}
+					}
+					cell += "|cancel"
+				}
 			case 2: // shared tasks across graphs
 				n := 2 + r.intn(6)
 				edges := randomDag(r, n, r.intn(30))
@@ -469,7 +477,10 @@ func init() {
 				if r.chance(1, 3) {
 					spec.MaxPar = 1 + r.intn(3)
 				}
-				cell = fmt.Sprintf("shared|graphs=%d", spec.NGraphs)
+				if r.chance(1, 2) {
+					spec.SerialMask = 1 + r.intn((1<<uint(spec.NGraphs))-1) // at least one of the graphs is serial
+				}
+				cell = fmt.Sprintf("shared|graphs=%d|some-serial=%v", spec.NGraphs, spec.SerialMask != 0)
 			default: // buffered output
 				n := 2 + r.intn(8)
 				edges := randomDag(r, n, r.intn(20))
